@@ -195,6 +195,7 @@ def run_c07(ctx, C):
     codec_common(ctx, C, [GEN_KEYS, gen_obj("ikesa", "C07"), gen_session("C07")], [], mcs=[MC_SALIFE, MC_OBJ, MC_OBJ_KNOB], traces=())
     # "initiator and responder end up with identical SAs" also when several key agreements run at the same time
     C.stage_race(ctx, dict(module="Gen_Schedules", name="keysets", prop="C07", constants=dict(Focus=KEY_AGREEMENT_KINDS)))
+    C.stage_apalache_prfplus(ctx)
 
 
 GEN_CHILD = dict(module="Gen_Child", name="child", constants=dict(N=lambda ctx: 300 if ctx.thorough else 48), trace=False)
@@ -203,6 +204,7 @@ GEN_DH = dict(module="Gen_DH", name="dh", trace=False, replay_workers=16)
 
 def run_c08(ctx, C):
     codec_common(ctx, C, [GEN_CHILD, GEN_KEYS, gen_hist("C08"), gen_obj("ikesa", "C08")], [], mcs=[MC_SALIFE, MC_SK, mc_sk_knob("ResetPerPrfBlock"), MC_OBJ], traces=())
+    C.stage_apalache_prfplus(ctx)
 
 
 def run_c09(ctx, C):
